@@ -342,7 +342,7 @@ func (c *FnCtx) heap(st *State, key string, s Sort) Term {
 	if t, ok := st.heaps[key]; ok {
 		return t
 	}
-	if st.epoch != "" && !strings.HasPrefix(key, "GH_") && key != nextKey && key != ctxDoneKey {
+	if st.epoch != "" && !strings.HasPrefix(key, "GH_") && key != nextKey && key != ctxDoneKey && key != chLenKey {
 		// first touch after a call that may have changed everything: a version of its own
 		t := c.g.u.declareConst(fmt.Sprintf("%s%s_%s", c.prefix, key, st.epoch), s)
 		c.heapWellTyped(key, t)
@@ -673,6 +673,11 @@ func (c *FnCtx) instrMods(in ssa.Instruction, locals map[*ssa.Alloc]bool, heaps 
 		common := in.(ssa.CallInstruction).Common()
 		if b, ok := common.Value.(*ssa.Builtin); ok {
 			switch b.Name() {
+			case "len":
+				if _, ok := common.Args[0].Type().Underlying().(*types.Chan); ok {
+					g.heapSorts[chLenKey] = arraySort(SInt, SInt)
+					heaps[chLenKey] = true
+				}
 			case "append":
 				if sl, ok := common.Args[0].Type().Underlying().(*types.Slice); ok {
 					k, _ := g.elemHeapKey(sl.Elem())
